@@ -139,8 +139,13 @@ def c05_streams(run, tier, seed):
                 pad = rng.randrange(0, 6)
                 off = {"start": winstart, "mid": rng.randrange(winstart + 0x400, 0xF000), "end": 0x10000 - pad - 2 - rng.randrange(0, 3)}[place]
                 base = (bank << 16) | off
-                reloc = rng.choice(["none", "none", "rom", "rom0", "ram", "ram-target", "ram-source"])
+                reloc = rng.choice(["none", "none", "rom", "rom0", "ram", "ram-target", "ram-source", "rom-then-org"])
                 lines = [f"*=0x{base:06x}"]
+                if reloc == "rom-then-org":
+                    # an earlier block that was relocated to another ROM run address; the branch sits in a later *= block
+                    other = ((bank + 2) << 16) | rng.randrange(winstart + 0x400, 0xF000)
+                    rb = ((bank + 3) << 16) | rng.randrange(winstart + 0x400, 0xF000)
+                    lines = [f"*=0x{other:06x}", ".db 1,2,3", f"@=0x{rb:06x}", ".db 4,5", f"*=0x{base:06x}"]
                 if reloc == "rom":
                     rb = ((bank + 1) << 16) | rng.randrange(winstart + 0x400, 0xF000)
                     lines += [".db 1,2,3", f"@=0x{rb:06x}"]
@@ -237,6 +242,12 @@ def c07_streams(run, tier, seed):
         txt = "".join(rng.choice(["a", "b", "c", " ", "X", "Y", "Z", "0", "9", "é", "\\'"]) for _ in range(rng.randrange(0, 6)))
         src = f"*=0x{base:06x}\nstart:\n.{kind} " + ", ".join(items) + f"\nafter:\n.ascii '{txt}'\nafter2:\n{extra}end:\n"
         progs.append(raw("low_rom", src, bins=bins, meta=(kind, n, base, total, txt)))
+    # long operand lists (a data table of a thousand entries on one directive)
+    for k_, n_ in (("dw", 1100), ("db", 1300)) if tier == "quick" else (("dw", 2048), ("db", 1500), ("dl", 1200), ("pointer", 1100)):
+        w_ = {"db": 1, "dw": 2, "dl": 3, "pointer": 3}[k_]
+        items = [str((i * 7) % (256 ** min(w_, 2))) for i in range(n_)]
+        src = f"*=0x018000\nstart:\n.{k_} " + ", ".join(items) + "\nafter:\n.ascii ''\nafter2:\nend:\n"
+        progs.append(raw("low_rom", src, bins={}, meta=(k_, n_, 0x018000, n_ * w_, "")))
     for pr, r, m in run.run(progs):
         kind, n, base, total, txt = pr["meta"]
         s.cases += 1
